@@ -17,6 +17,14 @@ parent) or as a LinkedContext - under enumeration orders of the members and regi
 MultiContext / LinkedContext or directly on the members); the Lean model is told the same construction
 (`Op.multi` / `Op.linked`).  Payloads are plain defs, closures of ONE factory, lambdas or functions of a
 factory-made class (same __module__ / __qualname__): an overload is its definition object, never its name.
+(d) families over a class graph with MULTIPLE INHERITANCE over unrelated classes and with tuple-typed parameters
+(shapes 'multi-inherit', 'nontransitive'): every overload accepts one value vector, and "more specific than" is
+not transitive on the matches (A > B, B > C, A and C incomparable; histogram families:non-transitive-triple) -
+all permutations as in (a)-(c).
+(e) the phase AFTER winner selection: 'picky' parameter types (a PythonType subclass whose check() looks at the class
+and whose convert() turns some VALUES down with ArgumentValueException, as date / identifier / JSON string types do),
+so that the chosen overload's argument conversion fails while other overloads of the layer match - the outcome is
+that ArgumentException in every order (model: Yaql.Resolve.callFinal, driver field "final").
 Oracle (real code alone): ONE outcome - overload or error class, evaluation log, bound arguments - per
 family and call across all enumeration AND registration orders; supported by plain set-backed
 Contexts in subprocesses with different PYTHONHASHSEED / allocation patterns / registration orders."""
@@ -31,7 +39,8 @@ import resolvegen
 import resolvelib as rl
 
 ID = 'C06'
-LEAN_MODULES = ['Yaql.Props.C06', 'Yaql.Props.C06Reg', 'Yaql.Props.C06Ctx']
+LEAN_MODULES = ['Yaql.Props.C06', 'Yaql.Props.C06Reg', 'Yaql.Props.C06Ctx', 'Yaql.Props.C06NonTrans',
+                'Yaql.Props.C06Invoke']
 P = 'Yaql.Props.C06.'
 REQUIRED_THEOREMS = [P + n for n in (
     'perm_invariant', 'spec_perm_invariant', 'old_order_dependent', 'old_tuple_order_dependent',
@@ -42,7 +51,14 @@ REQUIRED_THEOREMS = [P + n for n in (
     'Yaql.Props.C06Ctx.' + n for n in (
         'run_nodup', 'ownLayerL_members_perm', 'resolve_members_perm_invariant',
         'resolve_child_of_members_perm_invariant', 'resolve_multi_register_perm_invariant',
-        'keyed_merge_order_dependent')]
+        'keyed_merge_order_dependent')] + [
+    'Yaql.Props.C06NonTrans.' + n for n in (
+        'moreSpecific_asymm', 'nontransitive_triple_ambiguous', 'Ex.specialization_not_transitive',
+        'Ex.nontransitive_every_order', 'Ex.pruned_order_dependent', 'Ex.pruned_agrees_on_transitive',
+        'Ex.resolve_nontransitive_every_order')] + [
+    'Yaql.Props.C06Invoke.' + n for n in (
+        'callFinal_perm_invariant', 'conversion_failure_is_final', 'conversion_failure_every_order',
+        'chooseFinal_perm', 'Ex.fallback_order_dependent')]
 TRUSTED = ['resolvelib.ListContext: the enumeration order of a layer is what its get_functions returns',
            'resolvelib.enc_fd / enc_arg (encoding of the real objects for the model)',
            'the reading of exclusive=True: a layer is exclusive for a name when ANY registration of that name in it said '
@@ -73,15 +89,119 @@ HAND = [
                            _o(1, [_p('a', ['py', 'object', False]), _p('b', 'Number')]),
                            _o(2, [_p('a', ['py', 'object', False]), _p('b', 'Integer')])], x=False)],
          calls=[dict(args=[['tick', 1, 3], ['tick', 2, 6]], kw=[])]),
+    # non-transitive specialization (Props/C06NonTrans): A(bool, L) > B(int, R) > C(object, LL), A || C; value (True, an E)
+    dict(layers=[dict(fns=[_o(0, [_p('a', ['py', 'bool', False]), _p('b', ['py', 'L', False])]),
+                           _o(1, [_p('a', ['py', 'int', False]), _p('b', ['py', 'R', False])]),
+                           _o(2, [_p('a', ['py', 'object', False]), _p('b', ['py', 'LL', False])])], x=False)],
+         calls=[dict(args=[['tick', 1, 7], ['tick', 2, 12]], kw=[])]),
+    # the same through tuple types: A(bool, (L, str)) > B(int, LL) > C((int, str), L), A || C
+    dict(layers=[dict(fns=[_o(0, [_p('a', ['py', 'bool', False]), _p('b', ['py', ['L', 'str'], False])]),
+                           _o(1, [_p('a', ['py', 'int', False]), _p('b', ['py', 'LL', False])]),
+                           _o(2, [_p('a', ['py', ['int', 'str'], False]), _p('b', ['py', 'L', False])])], x=False)],
+         calls=[dict(args=[['tick', 1, 7], ['v', ['corpus', 12]]], kw=[])]),
 ]
 
 
 RICH = ('kwonly-mix', 'star-mix', 'default-mix', 'rich')
 
 
+# ---- multiple inheritance, unrelated classes, tuple-typed parameters (round 5: seeded change C06-10 was missed)
+# the classes every value of the corpus is an instance of, most specific first (resolvelib: LL(L), E(LL, R), U, G(D, U))
+SUPERS = {12: ['E', 'LL', 'L', 'R', 'Base', 'object'],              # an E
+          13: ['G', 'D', 'L', 'R', 'Base', 'U', 'object'],          # a G
+          3: ['D', 'L', 'R', 'Base', 'object'],                     # a D
+          7: ['bool', 'int', 'object'],                             # True
+          6: ['int', 'object']}                                     # 7
+# for a value: triples (X, Y, Z) of its classes with X || Y, Y || Z and Z < X - the position that makes A(.., X),
+# B(.., Y), C(.., Z) non-transitive when another position orders them A < B < C
+TWISTS = {12: [('L', 'R', 'LL')],
+          13: [('Base', 'U', 'D'), ('Base', 'U', 'L'), ('L', 'U', 'D'), ('R', 'U', 'D'), ('Base', 'U', 'R')]}
+CHAINS = {12: [('E', 'LL', 'L'), ('LL', 'L', 'Base'), ('E', 'R', 'object'), ('LL', 'Base', 'object')],
+          13: [('G', 'D', 'L'), ('D', 'R', 'Base'), ('G', 'U', 'object'), ('D', 'Base', 'object')],
+          3: [('D', 'L', 'Base'), ('D', 'R', 'object'), ('L', 'Base', 'object')],
+          7: [('bool', 'int', 'object')]}
+OTHER = ['str', 'float', 'NoneType', 'U', 'LL', 'R']
+
+
+def _py(c, nullable=False):
+    return ['py', c, nullable]
+
+
+def mi_type(rng, v):
+    """a type the corpus value v satisfies: one of its classes, or a TUPLE of classes holding one of them"""
+    c = rng.choice(SUPERS[v])
+    r = rng.random()
+    if r < 0.22:
+        t = [c, rng.choice(OTHER)]
+        rng.shuffle(t)
+        return _py(t)
+    if r < 0.30:
+        return ['picky', c, False]          # convert() turns the G (and the second D) down
+    return _py(c)
+
+
+def gen_mi_family(rng, shape):
+    """one layer (sometimes a second one behind it) of overloads that ALL accept one value vector; the types of a
+    position are classes of its value (multiple inheritance: unrelated ones among them) or tuples of classes.
+    'nontransitive': three of the overloads are built as A > B, B > C with A, C incomparable."""
+    arity = rng.choice([2, 2, 3])
+    vals = [rng.choice([12, 13, 12, 13, 3, 7]) for _ in range(arity)]
+    names = ['a', 'b', 'c'][:arity]
+    fns = []
+    if shape == 'nontransitive':
+        i, j = rng.sample(range(arity), 2)
+        cols = [[_py(rng.choice(['object', SUPERS[v][-2]]))] * 3 for v in vals]
+        if rng.random() < 0.6 and any(v in TWISTS for v in vals):
+            # position i: a chain A < B < C; position j: X || Y, Y || Z, Z < X
+            if vals[j] not in TWISTS:
+                vals[j] = rng.choice([12, 13])
+            if vals[i] not in CHAINS:
+                vals[i] = rng.choice([12, 13, 3, 7])
+            cols[i] = [_py(c) for c in rng.choice(CHAINS[vals[i]])]
+            cols[j] = [_py(c) for c in rng.choice(TWISTS[vals[j]])]
+        else:
+            # tuple types are never ordered: A(a1, T), B(b1, b2), C(T', c2) with a1 < b1 and b2 < c2
+            for k in (i, j):
+                if vals[k] not in CHAINS:
+                    vals[k] = rng.choice([12, 13, 3, 7])
+            ci, cj = rng.choice(CHAINS[vals[i]]), rng.choice(CHAINS[vals[j]])
+            a1, b1 = rng.choice([(0, 1), (1, 2), (0, 2)])
+            b2, c2 = rng.choice([(0, 1), (1, 2), (0, 2)])
+            tup = lambda v: _py(rng.sample([rng.choice(SUPERS[v]), rng.choice(OTHER)], 2))  # noqa: E731
+            cols[i] = [_py(ci[a1]), _py(ci[b1]), tup(vals[i])]
+            cols[j] = [tup(vals[j]), _py(cj[b2]), _py(cj[c2])]
+        for r in range(3):
+            fns.append([cols[k][r] for k in range(arity)])
+        extra = rng.choice([0, 0, 0, 1, 2])
+    else:
+        extra = rng.choice([3, 3, 4, 4, 5])
+    for _ in range(extra):
+        fns.append([mi_type(rng, v) for v in vals])
+    fid = 0
+    out = []
+    for tys in fns:
+        out.append(_o(fid, [_p(n, t) for n, t in zip(names, tys)]))
+        fid += 1
+    rng.shuffle(out)
+    layers = [dict(fns=out, x=False)]
+    if rng.random() < 0.2:
+        layers.append(dict(fns=[_o(fid, [_p(n, mi_type(rng, v)) for n, v in zip(names, vals)])], x=False))
+    return layers, vals
+
+
 def gen_family(rng):
     shape = rng.choice(['lattice', 'lattice', '1below2', 'lazy-mix', 'nk-mix', 'general', 'tuple-mix',
-                        'kwonly-mix', 'kwonly-mix', 'star-mix', 'default-mix', 'rich', 'rich'])
+                        'kwonly-mix', 'kwonly-mix', 'star-mix', 'default-mix', 'rich', 'rich',
+                        'multi-inherit', 'multi-inherit', 'nontransitive', 'nontransitive'])
+    if shape in ('multi-inherit', 'nontransitive'):
+        layers, vals = gen_mi_family(rng, shape)
+        style = rng.choice(['def', 'def', 'factory', 'lambda', 'classfn'])
+        if rng.random() < 0.5:
+            for l in layers:
+                for o in l['fns']:
+                    o['py'] = dict(style=style, via=rng.choice(['fd', 'fd', 'fdconv', 'callable']),
+                                   nameby=rng.choice(['arg', 'arg', 'deco']))
+        return shape + ':' + ','.join(map(str, vals)), layers
     arity = rng.choice([1, 2, 2, 3])
     names = ['a', 'b', 'c'][:arity]
     fid = [0]
@@ -116,8 +236,12 @@ def gen_family(rng):
         fid[0] += 1
         return o
 
+    p_picky = rng.choice([0.0, 0.15, 0.3, 0.45])
+
     def lat_types():
-        return [['py', rng.choice(LAT), False] for _ in range(arity)]
+        # 'picky': a PythonType subclass of the same class whose convert() turns some values down (the second D, ..):
+        # the phase after winner selection
+        return [['picky' if rng.random() < p_picky else 'py', rng.choice(LAT), False] for _ in range(arity)]
 
     layers = []
     for li in range(rng.choice([1, 1, 1, 2, 2, 3])):
@@ -125,7 +249,8 @@ def gen_family(rng):
         fns = []
         if shape == '1below2' and arity >= 2 and li == 0:
             extra = [['py', 'object', False]] * (arity - 2)
-            fns = [overload([['py', 'D', False], ['py', 'D', False]] + extra),
+            fns = [overload([['picky' if rng.random() < p_picky else 'py', 'D', False],
+                             ['picky' if rng.random() < p_picky else 'py', 'D', False]] + extra),
                    overload([['py', 'L', False], ['py', 'Base', False]] + extra),
                    overload([['py', 'Base', False], ['py', 'R', False]] + extra)]
             n = rng.choice([0, 0, 1, 2])
@@ -166,6 +291,22 @@ def gen_family(rng):
 
 
 def gen_calls(rng, shape, layers):
+    if ':' in shape:
+        # the family's value vector, as probes / plain values / silent variables; sometimes one position differs
+        vals = [int(v) for v in shape.split(':')[1].split(',')]
+        pc = resolvegen.ProbeCounter()
+        calls = []
+        for k in range(2):
+            vs = list(vals)
+            if k == 1 and rng.random() < 0.5:
+                vs[rng.randrange(len(vs))] = rng.choice([12, 13, 3, 4, 7, 14, 15])
+            args = []
+            for v in vs:
+                form = rng.random()
+                args.append(['tick', pc.next(), v] if form < 0.6 else ['v', ['corpus', v]] if form < 0.8 else
+                            ['var', rl.SILENT + pc.next(), v])
+            calls.append(dict(args=args, kw=[]))
+        return calls
     allo = [o for l in layers for o in l['fns']]
     arity = max([len([p for p in o['params'] if p['kind'] == 'pos' and not resolvegen.is_hidden(p)])
                  for o in allo] + [1])
@@ -341,6 +482,14 @@ def run_family(case, drv, rng, tier, hist=None, stats=None):
         by_real[ci].setdefault(label, set()).add(outcome_key(r))
 
     def against(m, r, what, key):
+        if m is not None and 'final' in m:
+            # the phase after choose_overload (Yaql.Resolve.callFinal): a convert() of the chosen overload that turns
+            # the value down is the outcome - ArgumentException, no payload runs
+            failed = r.get('delegate_error') == 'ArgumentException'
+            if (m['final'] == 'conversion-failed') != failed and ('id' in r or failed):
+                fails.append(('mismatch', 'conversion-phase', '%s: real %s, model %s' % (
+                    what, 'ArgumentException out of the chosen delegate' if failed else
+                    'payload %r ran' % r.get('id'), m['final'])))
         if m is None or 'delegate_error' in r:
             return
         m_out = m.get('err', m.get('id'))
@@ -355,7 +504,9 @@ def run_family(case, drv, rng, tier, hist=None, stats=None):
     # ---- (a) enumeration orders on the chain of plain ListContexts
     models = None
     if drv:
-        req = dict(p='Resolve', fams=[dict(layers=enc_layers_in_order(fam, o), calls=[c.enc() for c in calls])
+        picky = rl.picky_rows(fam.fds)
+        extra = dict(picky=picky, rejected=list(rl.REJECTED)) if picky else {}
+        req = dict(p='Resolve', fams=[dict(layers=enc_layers_in_order(fam, o), calls=[c.enc() for c in calls], **extra)
                                       for o in ords])
         req['lat'] = rl.T.lattice()
         models = drv.ask(req)['out']
@@ -373,6 +524,7 @@ def run_family(case, drv, rng, tier, hist=None, stats=None):
             fam.set_order(li, [o['id'] for o in layer['fns']])
         stats['mapped'] = max([rl.spec_resolve(fam, c).get('nmapped', 0) for c in calls] + [0])
         stats['compat'] = max([rl.spec_resolve(fam, c).get('nmatch', 0) for c in calls] + [0])
+        stats['nontransitive'] = any(rl.spec_resolve(fam, c).get('nontransitive') for c in calls)
     n_orders = len(ords)
     # ---- (b) registration orders: the same overloads (with their exclusive flags) registered into fresh plain,
     # set-backed Contexts in every order; (c) the same family held by other context shapes - MultiContexts whose
@@ -420,7 +572,8 @@ def run_family(case, drv, rng, tier, hist=None, stats=None):
     for ci, s in enumerate(seen):
         if hist is not None:
             r0 = next(iter(s.values()))[1]
-            k = 'outcome:' + str(r0.get('err', 'chosen'))
+            k = 'outcome:' + str(r0.get('err', 'conversion-failed-in-chosen-overload' if r0.get('delegate_error') ==
+                                        'ArgumentException' else 'chosen'))
             hist[k] = hist.get(k, 0) + 1
             for label in by_real[ci]:
                 k = 'realization:' + label.split('[')[0].split('/')[0]
@@ -574,6 +727,11 @@ def run(env, res):
                 'a MultiContext of 1-3 members in every member order / as a LinkedContext; enumeration orders of the members, '
                 'registration orders through the composite or on the members); payloads written as defs / closures of one '
                 'factory / lambdas / class functions; distinct = distinct (family, calls); '
+                'plus families over a class graph with multiple inheritance over unrelated classes (LL(L), E(LL, R), U, '
+                'G(D, U)) and tuple-typed parameters in which every overload accepts one value vector, random or built as '
+                'A > B, B > C, A || C (non-transitive specialization; counted in the histogram); 0-30 % of the class-typed '
+                'parameters are PythonType subclasses whose convert() turns some values down after check() passed '
+                '(conversion failure in the chosen overload); '
                 'non-trivial = some call has >= 2 type-compatible candidates or an ambiguity')
     hist = {}
     if env['replay']:
@@ -599,7 +757,12 @@ def run(env, res):
             fs, n, seen = run_family(case, drv, rng, tier, hist, stats)
         except rl.Unsupported:
             continue
+        shape = shape.split(':')[0]
         hist['shape:' + shape] = hist.get('shape:' + shape, 0) + 1
+        if stats.get('nontransitive'):
+            # three simultaneously matching overloads of one layer with a > b, b > c, a and c incomparable
+            hist['families:non-transitive-triple'] = hist.get('families:non-transitive-triple', 0) + 1
+            hist['families:non-transitive-triple:' + shape] = hist.get('families:non-transitive-triple:' + shape, 0) + 1
         hist['orders'] = hist.get('orders', 0) + n
         for what in ('mapped', 'compat'):
             for lim in (2, 3, 4):
@@ -646,7 +809,15 @@ def run(env, res):
 LEVEL_TEXT = ('Lean 4 theorems: perm_invariant - the code-shaped model of runner.call/choose_overload gives the same overload, '
               'bound arguments, evaluation log and error class for every layer-wise permutation of the overloads, in full, '
               'for every class graph, family and call (resolve = resolveSpec, and visible_perm, stage_perm, choose_perm show '
-              'each stage of resolveSpec is a function of the overload set); C06Ctx: in every reachable state each context holds '
+              'each stage of resolveSpec is a function of the overload set); C06NonTrans: "more specific than" is asymmetric '
+              'but not transitive (unrelated classes under multiple inheritance, tuple-typed parameters), and three matches '
+              'with A > B, B > C, not A > C are Ambiguous in EVERY enumeration order, for every class graph '
+              '(nontransitive_triple_ambiguous; witnesses through the whole resolve by decide; pruned_order_dependent: a '
+              'selection that drops candidates dominated by earlier matches is order dependent exactly there); C06Invoke: '
+              'the phase after choose_overload - the chosen overload\'s argument conversion may fail after its check passed; '
+              'log and FINAL outcome (payload ran / conversion failure of the chosen overload / error) are invariant under '
+              'layer permutations for every conversion behaviour (callFinal_perm_invariant, conversion_failure_every_order; '
+              'fallback_order_dependent: trying the other matches in enumeration order would not be); C06Ctx: in every reachable state each context holds '
               'a SET of definition objects (run_nodup), the layer of a MultiContext is the union of its members whatever the '
               'order of the member list (ownLayerL_members_perm), so calls from it and from its children do not depend on '
               'that order nor on the registration order (resolve_members_perm_invariant, '
